@@ -209,7 +209,7 @@ class Tiles:
     def __dask_tokenize__(self):
         return (
             "odc.geo.roi.Tiles",
-            *self._shape,
+            *self._base_shape,
             *self._tile_shape,
         )
 
